@@ -283,6 +283,9 @@ func newOnHeapTableIndex(indexBuff []byte, offsetsBuff1 []byte, count uint32, to
 
 func (ti onHeapTableIndex) entrySuffixMatches(idx uint32, h *hash.Hash) (bool, error) {
 	ord := ti.ordinalAt(idx)
+	if ord >= ti.count {
+		return false, ErrInvalidTableFile
+	}
 	o := uint64(ord) * hash.SuffixLen
 	b := ti.suffixes[o : o+hash.SuffixLen]
 	return bytes.Equal(h[hash.PrefixLen:], b), nil
@@ -290,6 +293,9 @@ func (ti onHeapTableIndex) entrySuffixMatches(idx uint32, h *hash.Hash) (bool, e
 
 func (ti onHeapTableIndex) indexEntry(idx uint32, a *hash.Hash) (entry indexEntry, err error) {
 	prefix, ord := ti.tupleAt(idx)
+	if ord >= ti.count {
+		return nil, ErrInvalidTableFile
+	}
 
 	if a != nil {
 		binary.BigEndian.PutUint64(a[:], prefix)
@@ -299,7 +305,11 @@ func (ti onHeapTableIndex) indexEntry(idx uint32, a *hash.Hash) (entry indexEntr
 		copy(a[hash.PrefixLen:], b)
 	}
 
-	return ti.getIndexEntry(ord), nil
+	entry = ti.getIndexEntry(ord)
+	if entry.Length() < checksumSize {
+		return nil, ErrInvalidTableFile
+	}
+	return entry, nil
 }
 
 func (ti onHeapTableIndex) getIndexEntry(ord uint32) indexEntry {
@@ -325,7 +335,11 @@ func (ti onHeapTableIndex) lookup(h *hash.Hash) (indexEntry, bool, error) {
 	if ord == ti.count {
 		return indexResult{}, false, nil
 	}
-	return ti.getIndexEntry(ord), true, nil
+	entry := ti.getIndexEntry(ord)
+	if entry.Length() < checksumSize {
+		return indexResult{}, false, ErrInvalidTableFile
+	}
+	return entry, true, nil
 }
 
 // lookupOrdinal returns the ordinal of |h| if present. Returns |ti.count|
